@@ -233,7 +233,8 @@ def run(ctx, tier):
     if not r_enf.instances:
         r_enf.inst('no enforce_bounds uses an early-return bounds test', ok=True, nontrivial=False)
     r_canon = _canon(ctx, prim)
-    return [r_lost, r_same, r_range, r_enf, r_canon]
+    r_acc = _accept(ctx, prim)
+    return [r_lost, r_same, r_range, r_enf, r_canon, r_acc]
 
 
 def _canon(ctx, prim):
@@ -698,3 +699,161 @@ def _cone_space(ctx, adt, ms, r_same, r_range):
                         loc=fn.loc(bi, si), ordinal=n_ok))
         if n_ok == 0:
             r_same.violations.append(Violation('C11', 'C11.same', su.path, 'no-sample', 'no sampled Ok return found (unrecognised shape)', loc=su.loc(0)))
+
+
+# ---------------------------------------------------------------------------------------------------------------------
+# C11.accept - interval spaces: the value enforce_bounds leaves behind is accepted by satisfies_bounds
+def _final_state_stores(fn, param=2):
+    """stores into *param (whole, or its fields) from which a return is reachable without another such store:
+    [(block, idx, field name or None, value terms)]"""
+    stores = []
+    for bi, blk in enumerate(fn.blocks):
+        if blk['cleanup']:
+            continue
+        for si, st in enumerate(blk['stmts']):
+            if st['k'] != 'assign':
+                continue
+            pl = st['place']
+            if pl['l'] != param or not pl['p'] or pl['p'][0] != 'deref':
+                continue
+            names = [e.get('name') for e in pl['p'] if isinstance(e, dict) and 'f' in e]
+            stores.append((bi, si, names[0] if names else None, fn.rvalue_terms(st['rv'], (bi, si))))
+    blocks = {(b, i) for (b, i, _f, _v) in stores}
+    out = []
+    rets = set(fn.return_blocks())
+    for (b, i, f, v) in stores:
+        # a later store in the same block overrides
+        if any(b2 == b and i2 > i for (b2, i2) in blocks):
+            continue
+        stop = frozenset(b2 for (b2, _i2) in blocks if b2 != b)
+        r = fn.reachable_multi(fn.succs(b), stop=stop) if fn.succs(b) else set()
+        if b in rets or any(x in rets and x not in stop for x in r):
+            out.append((b, i, f, v))
+    return out
+
+
+def _accept(ctx, prim):
+    """symbolic evaluation of the bounds check on each value enforce_bounds can leave behind (a stored bound), using
+    only order facts that hold for the stored bounds (lower < upper, both inside [-pi, pi]) and treating every function
+    result as an unknown value: a check that first re-computes the value (e.g. re-wraps an already canonical angle,
+    which is neither exact in floating point nor the identity at +pi) cannot be shown to accept it."""
+    import math
+    from ..boolpath import explore, Overflow
+    r = RuleResult('C11.accept', 'interval spaces: the value enforce_bounds leaves behind passes satisfies_bounds (symbolic evaluation of the check on the stored bounds)')
+    n_sp = 0
+    PI = math.pi
+    for adt, bty in prim:
+        if bty != '(f64, f64)':
+            continue
+        ms = space_methods(ctx, adt)
+        eb, sb = ms.get('enforce_bounds'), ms.get('satisfies_bounds')
+        if eb is None or sb is None:
+            continue
+        n_sp += 1
+        fe, fs = ctx.fn(eb), ctx.fn(sb)
+        # ---- what enforce_bounds leaves
+        left = []
+        probs = []
+        for (b, i, f, v) in _final_state_stores(fe):
+            vals = v if f is not None else fe._field(v, 'value')
+            for n in strip_clone(vals):
+                rd = list(bound_reads(T(n)))
+                if n[0] == 'field' and len(rd) == 1 and rd[0][0] == n and rd[0][1] is None:
+                    left.append(('lower' if rd[0][2] == '0' else 'upper', b))
+                elif f is None:
+                    # whole-state canonicalisation: must be followed by the early return on the check (C11.enforce)
+                    continue
+                else:
+                    probs.append('enforce_bounds can leave the value %s, which is neither a stored bound nor a value the check has accepted' % fmt_terms(T(n))[:60])
+        if not left and not probs:
+            probs.append('enforce_bounds never assigns a stored bound (unrecognised shape)')
+
+        # ---- the check, symbolically
+        def sym(ts):
+            ts = strip_clone(ts)
+            if len(ts) != 1:
+                return None
+            n = next(iter(ts))
+            rd = list(bound_reads(ts))
+            if n[0] == 'field' and len(rd) == 1 and rd[0][0] == n and rd[0][1] is None:
+                return 'lower' if rd[0][2] == '0' else 'upper'
+            c = const_float(ts)
+            if c is not None:
+                return ('const', c)
+            if n[0] == 'unop' and n[1] == 'Neg':
+                c = const_float(n[2])
+                if c is not None:
+                    return ('const', -c)
+            if n[0] == 'field' and n[2] == 'value' and all(m[0] == 'param' and m[1] == 2 for m in n[1]):
+                return 'value'
+            return ('opaque', fmt_terms(ts)[:50])
+
+        def is_atom(n):
+            return n[0] == 'binop' and n[1] in ('Lt', 'Le', 'Gt', 'Ge', 'Eq', 'Ne')
+        try:
+            leaves = explore(fs, 0, is_atom)
+        except Overflow:
+            leaves = None
+            probs.append('bounds check too branchy to evaluate (unrecognised shape)')
+
+        # intervals (lo, lo_open, hi, hi_open) of the stored bounds: lower in [-pi, pi), upper in (-pi, pi]
+        IV = {'lower': (-PI, False, PI, True), 'upper': (-PI, True, PI, False)}
+
+        def rel(a, b, case):
+            """possible order relations between two symbols when `value` is the stored bound `case`"""
+            a = case if a == 'value' else a
+            b = case if b == 'value' else b
+            if isinstance(a, tuple) and a[0] == 'opaque' or isinstance(b, tuple) and b[0] == 'opaque':
+                return {'lt', 'eq', 'gt', 'un'}
+            if a == b:
+                return {'eq'}
+            if (a, b) == ('lower', 'upper'):
+                return {'lt'}
+            if (a, b) == ('upper', 'lower'):
+                return {'gt'}
+            ia = (a[1], False, a[1], False) if isinstance(a, tuple) else IV[a]
+            ib = (b[1], False, b[1], False) if isinstance(b, tuple) else IV[b]
+            out = set()
+            # a < b possible?
+            if ia[0] < ib[2]:
+                out.add('lt')
+            if ia[2] > ib[0]:
+                out.add('gt')
+            lo, hi = max(ia[0], ib[0]), min(ia[2], ib[2])
+            if lo < hi or (lo == hi and not ((ia[0] == lo and ia[1]) or (ib[0] == lo and ib[1]) or (ia[2] == hi and ia[3]) or (ib[2] == hi and ib[3]))):
+                out.add('eq')
+            return out
+        ACC = {'Lt': {'lt'}, 'Le': {'lt', 'eq'}, 'Gt': {'gt'}, 'Ge': {'gt', 'eq'}, 'Eq': {'eq'}, 'Ne': {'lt', 'gt', 'un'}}
+        for case in sorted({c for c, _b in left}):
+            if leaves is None:
+                break
+            bad = None
+            for (val, out) in leaves:
+                consistent = True
+                for atom, tv in val.items():
+                    a, b_ = sym(atom[2]), sym(atom[3])
+                    if a is None or b_ is None:
+                        continue
+                    rs = rel(a, b_, case)
+                    acc = ACC[atom[1]]
+                    if rs <= acc and tv is False:
+                        consistent = False
+                    if not (rs & acc) and tv is True:
+                        consistent = False
+                if consistent and out != ('ret', True):
+                    bad = (val, out)
+                    break
+            ok = bad is None
+            r.inst('%s: satisfies_bounds accepts a state whose value is the stored %s bound' % (adt.rsplit('::', 1)[1], case), ok=ok, site=sb.loc(0))
+            if not ok:
+                why = ', '.join('%s %s %s is %s' % (fmt_terms(a[2])[:40], a[1], fmt_terms(a[3])[:30], tv) for a, tv in bad[0].items())
+                r.violations.append(Violation(
+                    'C11', 'C11.accept', sb.path, 'left:' + case,
+                    'enforce_bounds can leave the stored %s bound in the state, but the bounds check cannot be shown to accept it: the check '
+                    'does not compare the value itself (it recomputes it first - re-wrapping an already canonical angle is not exact in floating '
+                    'point and maps +pi to -pi), so the outcome [%s] is possible' % (case, why), loc=sb.loc(0)))
+        for o, pr in enumerate(dict.fromkeys(probs)):
+            r.violations.append(Violation('C11', 'C11.accept', eb.path, 'shape', pr, loc=eb.loc(0), ordinal=o))
+    if n_sp < 1:
+        r.violations.append(Violation('C11', 'C11.accept', 'oxmpl', 'floor', 'no interval-bounded space found (floor 1)'))
+    return r
